@@ -104,6 +104,13 @@ func runOp3(c *hlib.Ctx, st *state3, m *model3d.Mesh, forced int) result3 {
 	if forced >= 0 {
 		op = forced
 	}
+	if (op >= 6 && op <= 9) && overlapping3(m) {
+		// points created on distinct edges/faces would coincide (folded or flattened geometry):
+		// the id soup of the output would not be the combinatorial subdivision; not an input
+		c.Stat("growth-op-skipped-on-overlapping-geometry", 1)
+		r.skipped = true
+		return r
+	}
 	switch op {
 	case 0, 1: // Decimator.Decimate / DecimateSimple
 		r.kind = "decimate3"
@@ -239,18 +246,31 @@ func runOp3(c *hlib.Ctx, st *state3, m *model3d.Mesh, forced int) result3 {
 		}
 		pure := c.Rng.Intn(2) == 0
 		r.params = []string{fmt.Sprint(lines)}
+		mids := map[model3d.Coord3D]bool{}
+		for _, id := range usedIDs3(st.soup) {
+			mids[st.ids.coords[id]] = true
+		}
+		clash := false
 		r.status = watchdog(func() {
 			cp := m.Copy()
 			sub.Subdivide(cp, func(p1, p2 model3d.Coord3D) model3d.Coord3D {
 				mid := p1.Mid(p2)
-				if pure {
-					return mid
+				if !pure {
+					d := p2.Sub(p1)
+					mid = mid.Add(d.Cross(model3d.XYZ(1, 2, 3)).Scale(1.0 / 64))
 				}
-				d := p2.Sub(p1)
-				return mid.Add(d.Cross(model3d.XYZ(1, 2, 3)).Scale(1.0 / 64))
+				if mids[mid] {
+					clash = true // the caller-supplied midpoints must be new, distinct points
+				}
+				mids[mid] = true
+				return mid
 			})
 			r.out = cp
 		})
+		if clash {
+			c.Stat("hypothesis-failed(midpoints-not-distinct):subdivider3", 1)
+			r.params = append(r.params, "noninj")
+		}
 		r.exact = st.exact && pure && bits < 40
 		r.flat = st.flat && r.exact
 	case 10, 11: // Blur
@@ -382,4 +402,33 @@ func runOp3(c *hlib.Ctx, st *state3, m *model3d.Mesh, forced int) result3 {
 		r.exact = st.exact
 	}
 	return r
+}
+
+// overlapping3 reports whether points that a subdivision creates on distinct edges or faces
+// coincide (or hit an existing vertex): edge points at 1/4, 1/3, 1/2, 2/3, 3/4 and face centroids.
+func overlapping3(m *model3d.Mesh) bool {
+	seen := map[model3d.Coord3D]bool{}
+	for _, v := range m.VertexSlice() {
+		seen[v] = true
+	}
+	segs := map[model3d.Segment]bool{}
+	clash := false
+	add := func(p model3d.Coord3D) {
+		if seen[p] {
+			clash = true
+		}
+		seen[p] = true
+	}
+	m.Iterate(func(t *model3d.Triangle) {
+		add(t[0].Add(t[1]).Add(t[2]).Scale(1.0 / 3))
+		for _, s := range t.Segments() {
+			if !segs[s] {
+				segs[s] = true
+				for _, f := range []float64{0.25, 1.0 / 3, 0.5, 2.0 / 3, 0.75} {
+					add(s[0].Scale(1 - f).Add(s[1].Scale(f)))
+				}
+			}
+		}
+	})
+	return clash
 }
